@@ -278,7 +278,7 @@ class RawClient:
         deliver(self.proto, raw)
         return serial
 
-    def call_bus(self, member, sig='', trees=(), path='/org/freedesktop/DBus', with_interface=None):
+    def call_bus(self, member, sig='', trees=(), path='/org/freedesktop/DBus', with_interface=None, no_reply=False):
         """Method call to org.freedesktop.DBus; returns the decoded reply (or None)."""
         fields = {1: path, 2: 'org.freedesktop.DBus', 3: member, 6: 'org.freedesktop.DBus'}
         if with_interface is None:
@@ -292,7 +292,7 @@ class RawClient:
             fields[7] = others[self.serial % len(others)] if others else ':1.4242'
         elif self.name and k == 2:
             fields[7] = self.name
-        s = self.send(1, fields, sig, trees)
+        s = self.send(1, fields, sig, trees, flags=1 if no_reply else 0)     # 1 = NO_REPLY_EXPECTED: fire and forget
         self.rig.pump_all()
         for m in self.inbox:
             if m['type'] in (2, 3) and m['fields'].get(5) == s:
